@@ -217,12 +217,12 @@ class ParticleReleaser(Iterator[pd.DataFrame]):
             parse_dates=["release_time"],
             names=names,
             dtype=dtypes,
-            delim_whitespace=True,
+            sep=r"\s+",
             index_col="release_time",
         )
 
-        # pandas 2.x has trouble reading time
-        if pd.__version__[0] == "2":
+        # pandas 2.x and later have trouble reading time
+        if int(pd.__version__.split(".")[0]) >= 2:
             kwargs["date_format"] = "ISO8601"
         try:
             df = pd.read_csv(rls_file, **kwargs)
@@ -302,7 +302,7 @@ class ParticleReleaser(Iterator[pd.DataFrame]):
         B = df.groupby(df.index).agg(lambda x: x.tolist())
 
         # Insert full time axis and forward fill and explode
-        S = T.join(B, on="times").fillna(method="ffill").set_index("times")
+        S = T.join(B, on="times").ffill().set_index("times")
         S = S.explode(column=S.columns.tolist())
 
         # Reset dtypes
